@@ -132,4 +132,26 @@ theorem fixed_from_text (z : Zoned) (hz : ZInv z) (hm : z.off % 60 = 0) (hs : TS
   simp only [trimStart_nil, ne_eq, not_true_eq_false, if_false]
   exact to_datetime_record z hz l hl Y O hvd he hst
 
+
+/-! ### from the representation invariants to (year, ordinal) form -/
+
+/-- a date satisfying the representation invariant is the `ordinal`-th day of its year -/
+theorem date_of_inv (d : Date) (hd : DateInv d) :
+    VD d.year d.ordinal.toNat ∧ d = dateOfYo d.year d.ordinal.toNat := by
+  obtain ⟨hext, hy1, hy2⟩ := (dateInv_iff d).mp hd
+  obtain ⟨e1, e2⟩ := ext_eq d hext
+  exact ⟨⟨hy1, hy2, e2.2.2.1, e2.2.2.2⟩, e1⟩
+
+/-- the same for a naive date-time, with the two texts spelled out -/
+theorem naive_of_inv (dt : NaiveDT) (h : NDTInv dt) :
+    VD dt.date.year dt.date.ordinal.toNat ∧ dt = ⟨dateOfYo dt.date.year dt.date.ordinal.toNat, dt.time⟩ ∧
+    naiveText 84 dt = dateText dt.date.year (monthOfYo dt.date.year dt.date.ordinal.toNat)
+        (dayOfYo dt.date.year dt.date.ordinal.toNat) ++ (84 :: timeText dt.time) ∧
+    naiveText 32 dt = dateText dt.date.year (monthOfYo dt.date.year dt.date.ordinal.toNat)
+        (dayOfYo dt.date.year dt.date.ordinal.toNat) ++ (32 :: timeText dt.time) := by
+  obtain ⟨hvd, he⟩ := date_of_inv dt.date h.1
+  refine ⟨hvd, ?_, rfl, rfl⟩
+  cases dt with
+  | mk d t => simp only [NaiveDT.mk.injEq, and_true]; exact he
+
 end Chrono.Proofs.TextForms
